@@ -177,6 +177,7 @@ func (r *runner) randomStep(p profile, allowFault bool) {
 		add(14, r.wok)
 		if allowFault {
 			add(2, r.wfail)
+			add(1, r.wtimeout)
 		}
 	}
 	if allowFault {
@@ -260,7 +261,7 @@ func (r *runner) finishRun() {
 
 // D6 shape: the writer is inside conn.Write, a second completion is taken by
 // the loop (now blocked in its inner send), then the write fails.
-func runWriteFailWhileCompleting(rng *prng.R) *runner {
+func runWriteFailWhileCompleting(rng *prng.R, timeout bool) *runner {
 	r := start(rng, true, nil)
 	r.profile = "directed-wfail-while-completing"
 	r.maxDepth = 4
@@ -270,7 +271,11 @@ func runWriteFailWhileCompleting(rng *prng.R) *runner {
 		r.finish(r.reqs[0], false) // reply handed to conn.Write, which blocks
 		r.finish(r.reqs[1], false) // loop takes the completion, blocks sending to the busy writer
 		if r.w.cn.writePending() {
-			r.wfail()
+			if timeout {
+				r.wtimeout()
+			} else {
+				r.wfail()
+			}
 		}
 	}
 	r.finishRun()
@@ -321,7 +326,9 @@ func runCase(seed uint64, idx int, prop string, thorough bool) caseOut {
 	var r *runner
 	switch {
 	case idx == 0:
-		r = runWriteFailWhileCompleting(rng)
+		r = runWriteFailWhileCompleting(rng, false)
+	case idx == 7:
+		r = runWriteFailWhileCompleting(rng, true)
 	case prop == "C11" && idx >= 2 && idx%4 == 2:
 		r = runFS(rng, idx == 2)
 	case idx == 1 || (idx < 6 && prop == "C07"):
